@@ -154,7 +154,7 @@ func c02Run(sc c02Sc, split int) (c02Out, []string) {
 	var out c02Out
 	writeAll := func(b []byte) {
 		// the peer may stop reading (it is allowed to close): never block forever
-		cli.SetWriteDeadline(time.Now().Add(3 * time.Second)) //nolint:errcheck
+		cli.SetWriteDeadline(time.Now().Add(10 * time.Second)) //nolint:errcheck
 		for len(b) > 0 {
 			n := len(b)
 			if split > 0 && n > split {
@@ -171,7 +171,7 @@ func c02Run(sc c02Sc, split int) (c02Out, []string) {
 	if sc.Expect && !sc.BodyNow {
 		// well-behaved client: wait for 100 Continue (or a final status) before sending the body
 		writeAll(head.Bytes())
-		cli.SetReadDeadline(time.Now().Add(3 * time.Second)) //nolint:errcheck
+		cli.SetReadDeadline(time.Now().Add(10 * time.Second)) //nolint:errcheck
 		line, err := br.ReadString('\n')
 		if err == nil && strings.Contains(line, " 100 ") {
 			br.ReadString('\n') //nolint:errcheck // blank line after the interim response
@@ -207,7 +207,7 @@ func c02Run(sc c02Sc, split int) (c02Out, []string) {
 	// (the handler tags its responses, so the canary's answer is recognised positively)
 	sawCanary := false
 	for len(out.Resps) < 400 {
-		cli.SetReadDeadline(time.Now().Add(3 * time.Second)) //nolint:errcheck
+		cli.SetReadDeadline(time.Now().Add(10 * time.Second)) //nolint:errcheck
 		var resp Response
 		if err := resp.Read(br); err != nil {
 			break
@@ -220,7 +220,7 @@ func c02Run(sc c02Sc, split int) (c02Out, []string) {
 	}
 	if !sawCanary {
 		// did the server close?  (EOF is a positive observation; wait long enough for it)
-		cli.SetReadDeadline(time.Now().Add(3 * time.Second)) //nolint:errcheck
+		cli.SetReadDeadline(time.Now().Add(10 * time.Second)) //nolint:errcheck
 		if _, err := br.Peek(1); err != nil {
 			if te, ok := err.(interface{ Timeout() bool }); ok && te.Timeout() {
 				out.Closed = false
@@ -233,7 +233,7 @@ func c02Run(sc c02Sc, split int) (c02Out, []string) {
 	<-wdone
 	select {
 	case <-srvDone:
-	case <-time.After(5 * time.Second):
+	case <-time.After(15 * time.Second):
 		problems = append(problems, "ServeConn did not return within 5s after the client closed")
 	}
 	mu.Lock()
